@@ -34,7 +34,7 @@ GenNext ==
     \/ \E c \in Conns_def, e \in Ids : Submit(c, e) /\ H([a |-> "EVENT", c |-> c, e |-> e])
     \/ \E c \in Conns_def, e \in Ids : FanOut(c, e, nf + 1) /\ Tau
     \/ \E c \in Conns_def, ok \in BOOLEAN : (Accept(c, ok) \/ ReplyOk(c, ok)) /\ Tau
-    \/ \E c \in Conns_def : (Send(c) \/ Notice(c) \/ Commit(c)) /\ Tau
+    \/ \E c \in Conns_def : (Send(c) \/ Notice(c) \/ Commit(c) \/ RefuseOk(c)) /\ Tau
     \/ \E n \in pn, put \in BOOLEAN : Notify(n, put) /\ Tau
     \/ \E cs \in Registered, i \in Ids : QPutEvent(cs[1], cs[2], reg[cs[1]][cs[2]].gen, i, reg[cs[1]][cs[2]].fs) /\ Tau
     \/ \E cs \in Registered : QPutEose(cs[1], cs[2], reg[cs[1]][cs[2]].gen) /\ Tau
@@ -121,7 +121,7 @@ def gen_relay_schedules(uni, nconns, sids, filter_lists, sublimit, backend, dept
 
 # ---- log -> trace ----------------------------------------------------------------------------------
 
-KEEP = {"Conn", "Req", "Close", "Submit", "FanOut", "Accept", "Notify", "QPut", "Send", "Drop", "Idle", "End"}
+KEEP = {"Conn", "Req", "Close", "Submit", "FanOut", "Accept", "Notify", "QPut", "Send", "Drop", "Idle", "End", "Limited", "Recv"}
 
 
 def log_to_trace(log, info, nconns):
@@ -159,6 +159,10 @@ def log_to_trace(log, info, nconns):
             f.pop("challenge", None)
             f.pop("why", None)
             out.append({"a": "Send", "c": ln["c"], "f": f})
+        elif a == "Limited":
+            out.append({"a": "Limited", "c": ln["c"]})
+        elif a == "Recv":
+            out.append({"a": "Recv", "c": ln["c"], "m": ln["m"] if ln["m"] in ("REQ", "CLOSE", "EVENT") else "OTHER"})
         elif a == "Drop":
             open_conns.discard(ln["c"])
             out.append({"a": "Drop", "c": ln["c"]})
